@@ -60,6 +60,17 @@ class Stateful(Stateless):
             self.state = freeze(json.loads(state.decode()))
 
 
+class Snapshot(Stateful):
+    """A stateful actor whose own set_state also restores the hyper-parameter the state was trained with (as an actor
+    pickling its whole __dict__ does): only the state preset's re-application of the builder parameters makes the
+    hyper-parameters of the CURRENT code win."""
+
+    def set_state(self, state):
+        if state:
+            self.state = freeze(json.loads(state.decode()))
+            self.hp = self.state[2]
+
+
 def builder(name, stateful=False, szout=1, hp=0):
     return (Stateful if stateful else Stateless).builder(name, szout=szout, hp=hp)
 
